@@ -68,6 +68,14 @@ add("setupcfg-has-security", "setup.cfg", '[options]\ninstall_requires =\n    se
 add("setupcfg-dup-last-line", "setup.cfg", '[metadata]\nname = requests\nrequests\n[options]\ninstall_requires =\n    black\n    requests\n')
 add("setupcfg-no-final-nl", "setup.cfg", '[options]\ninstall_requires =\n    requests\n    black')
 
+# ---- appended later (indices above are referenced by fixed experiments: append only)
+add("setupcfg-multiline-single", "setup.cfg", '[metadata]\nname = x\n\n[options]\ninstall_requires =\n    requests>=2.31\n\n[options.extras_require]\ndev = black\n')
+add("setupcfg-multiline-single-marker", "setup.cfg", '[options]\ninstall_requires =\n  importlib-metadata; python_version<"3.8"\n')
+add("pyproject-poetry-has-defusedxml-star", "pyproject.toml", '[tool.poetry]\nname = "x"\nversion = "0.1.0"\n\n[tool.poetry.dependencies]\npython = "^3.10"\ndefusedxml = "*"\n', present=["defusedxml"])
+add("pyproject-poetry-has-security-tilde", "pyproject.toml", '[tool.poetry]\nname = "x"\n\n[tool.poetry.dependencies]\npython = "^3.10"\nsecurity = "~1.3"\n', present=["security"])
+add("pyproject-poetry-has-fickling-table", "pyproject.toml", '[tool.poetry]\nname = "x"\n\n[tool.poetry.dependencies]\npython = "^3.10"\nfickling = {version = "*", optional = true}\n', present=["fickling"])
+add("pyproject-poetry-has-security-bare", "pyproject.toml", '[tool.poetry]\nname = "x"\n\n[tool.poetry.dependencies]\npython = "^3.10"\nsecurity = "1.3.1"\n', present=["security"])
+
 with open(os.path.join(os.path.dirname(os.path.dirname(os.path.abspath(__file__))), "corpus", "manifests.jsonl"), "w", encoding="utf-8") as f:
     for m in M:
         f.write(json.dumps(m, sort_keys=True) + "\n")
